@@ -7,7 +7,7 @@ ASSUMPTIONS = ["that the comment contains the documentation text verbatim is NOT
 
 def run(ctx):
     m = ctx.mir("default")
-    out = [T.docs_noninterference_rule(ctx.syn, "C15"), F.docs_slot_rule(m["ts_rs_macros"], "C15"), T.layout_rule(m["ts_rs"], "C15", rule="C15.R2b"),
+    out = [F.docs_operations_rule(m["ts_rs_macros"], "C15"), F.docs_slot_rule(m["ts_rs_macros"], "C15"), T.layout_rule(m["ts_rs"], "C15", rule="C15.R2b"),
            T.docs_containment_rule(m["ts_rs_macros"], ctx.syn, "C15"), T.docs_separator_rule(ctx.syn, m["ts_rs"], "C15")]
     out.append(T.docs_init_rule(ctx.syn, "C15"))
     out.append(T.impl_assembly_rule(ctx.syn, "C15", "C15.R8"))
